@@ -1,7 +1,202 @@
 (* Dispatch of the property checkers (extracted from Coq, Check/*.v) on the
-   implementation's and the model's outputs. *)
+   implementation's and the model's outputs.  One line per applicable property:
+     <id> V <prop> <step> <guard> <impl> <model>      (0/1 each; "-" when not evaluated) *)
 open Conv
+open BinNums
 
-let emit (_id : string) (_stream : string)
-    (_trace : (Editor.editor * Hist.op * Editor.editor Res.coq_Res) list)
-    (_impl : iobs option list) : unit = ()
+let cls = Go.coq_GoClassifier
+let upp = GoUpper.coq_GoUpper
+let b2s b = if b then "1" else "0"
+
+type eobs = { text : coq_Z list; opts : Options.options; sub : bool; a : coq_Z; b : coq_Z;
+              str : coq_Z list option; chars : coq_Z; lines : coq_Z }
+
+let of_iobs (i : iobs) : eobs =
+  { text = i.i_text; opts = i.i_opts; sub = i.i_sub; a = i.i_start; b = i.i_end; str = i.i_string;
+    chars = i.i_chars; lines = i.i_lines }
+let of_model (e : Editor.editor) : eobs =
+  let o = Hist.observe cls e in
+  { text = o.Hist.ob_text; opts = o.Hist.ob_opts; sub = o.Hist.ob_sub; a = o.Hist.ob_start; b = o.Hist.ob_end;
+    str = (match o.Hist.ob_string with Res.Ok s -> Some s | _ -> None); chars = o.Hist.ob_chars; lines = o.Hist.ob_lines }
+
+let unres = function Res.Ok l -> l | _ -> []
+
+(* verdicts of one step: list of (prop, guard, check on given output) *)
+let step_checks (recv : eobs) (op : Hist.op) (out : eobs option) : (string * bool * bool) list =
+  let t = recv.text in
+  let dflt o = Options.with_defaults cls (match o with Some o -> o | None -> recv.opts) in
+  let ck f = match out with Some o -> f o | None -> false in
+  let c18_valid = ("C18", Utf8.valid_utf8 t, ck (fun o -> Utf8.valid_utf8 o.text)) in
+  let keeps = ("C17", true, ck (fun o -> Options.options_eqb o.opts recv.opts)) in
+  let count o = Select.check_charcount cls o.text o.chars in
+  let full = (match recv.str with Some s -> s | None -> t) in
+  match op with
+  | Hist.OChars _ | Hist.OCharsFrom _ ->
+    let kind, s, e = (match op with Hist.OChars (s, e) -> z_of_int 0, s, e | Hist.OCharsFrom s -> z_of_int 1, s, Z0 | _ -> assert false) in
+    [("C04", Select.guard_C04 t s e, ck (fun o -> Select.check_C04 cls kind t s e o.text o.sub o.a o.b o.str full && count o)); c18_valid; keeps]
+  | Hist.OCharsTo e ->
+    [("C04", Select.guard_C04 t Z0 e, ck (fun o -> Select.check_C04 cls (z_of_int 2) t Z0 e o.text o.sub o.a o.b o.str full && count o)); c18_valid; keeps]
+  | Hist.OInsert (p, x) ->
+    [("C09", Select.guard_C09 t x p Z0, ck (fun o -> Select.check_C09 cls (z_of_int 0) t p Z0 x o.text));
+     ("C18", Utf8.valid_utf8 t && Utf8.valid_utf8 x, ck (fun o -> Utf8.valid_utf8 o.text)); keeps]
+  | Hist.ODelete (s, e) ->
+    [("C09", Select.guard_C09 t [] s e, ck (fun o -> Select.check_C09 cls (z_of_int 1) t s e [] o.text)); c18_valid; keeps]
+  | Hist.OOvertype (p, x) ->
+    [("C09", Select.guard_C09 t x p Z0, ck (fun o -> Select.check_C09 cls (z_of_int 2) t p Z0 x o.text));
+     ("C18", Utf8.valid_utf8 t && Utf8.valid_utf8 x, ck (fun o -> Utf8.valid_utf8 o.text)); keeps]
+  | Hist.OLines _ | Hist.OLinesFrom _ | Hist.OLinesTo _ ->
+    let kind, s, e = (match op with Hist.OLines (s, e) -> 0, s, e | Hist.OLinesFrom s -> 1, s, Z0 | Hist.OLinesTo e -> 2, Z0, e | _ -> assert false) in
+    let d = dflt None in
+    let sep = d.Options.o_linesep and ntl = recv.opts.Options.o_notrailing in
+    [("C10", Select.guard_C10 t sep s e,
+      ck (fun o -> Select.check_C10_sel (z_of_int kind) t sep ntl s e o.text o.a o.b
+                   && Select.check_linecount o.text (Options.with_defaults cls o.opts).Options.o_linesep o.opts.Options.o_notrailing o.lines
+                   && (match o.str with Some x -> x = full | None -> false)));
+     c18_valid; keeps]
+  | Hist.OApply (k, o) ->
+    let d = dflt o in
+    let sep = d.Options.o_linesep and ntl = d.Options.o_notrailing in
+    let f i l = unres (Hist.line_cb k i l) in
+    [("C10", Select.guard_C10 t sep Z0 Z0, ck (fun r -> r.text = Select.apply_expected f t sep ntl)); c18_valid; keeps]
+  | Hist.OWrap (w, o) ->
+    let d = dflt o in
+    let sep = d.Options.o_linesep and psep = d.Options.o_parasep in
+    if d.Options.o_preserve then
+      [("C07", Layout.guard_C07 cls t d w, ck (fun r -> Layout.check_C07_wrap cls t r.text [psep; sep] sep
+                                                      && (Common.contains sep psep || Layout.count_occ_sep t psep = Layout.count_occ_sep r.text psep)));
+       ("C11", Paras.guard_C11_hom t d && Layout.guard_C07 cls t d w, ck (fun r -> Paras.check_C11_hom cls upp op t d r.text));
+       c18_valid; keeps]
+    else
+      [("C06", Layout.guard_C06 cls t sep w, ck (fun r -> Layout.check_C06 cls t sep w r.text));
+       ("C07", Layout.guard_C07 cls t d w && Layout.guard_C06 cls t sep w, ck (fun r -> Layout.check_C07_wrap cls t r.text [sep] sep));
+       c18_valid; keeps]
+  | Hist.OCollapse o ->
+    let d = dflt o in
+    [("C07", Layout.guard_C07 cls t d Z0, ck (fun r -> Layout.check_C07_collapse cls t r.text d.Options.o_linesep)); c18_valid; keeps]
+  | Hist.OJustify (w, o) ->
+    let d = dflt o in
+    let sep = d.Options.o_linesep and psep = d.Options.o_parasep in
+    let same = ("C07", Layout.guard_C07 cls t d w,
+                ck (fun r -> Layout.check_C07_same cls t r.text (if d.Options.o_preserve then [psep; sep] else [sep])
+                             && (not d.Options.o_preserve || Layout.count_occ_sep t psep = Layout.count_occ_sep r.text psep))) in
+    if d.Options.o_preserve then [same; ("C11", Paras.guard_C11_hom t d && Layout.guard_C07 cls t d w, ck (fun r -> Paras.check_C11_hom cls upp op t d r.text)); c18_valid; keeps]
+    else [("C12", Layout.guard_C12 cls t sep w, ck (fun r -> Layout.check_C12 cls t sep d.Options.o_notrailing d.Options.o_justlast w r.text));
+          same; c18_valid; keeps]
+  | Hist.OAlign (a, w, o) ->
+    let d = dflt o in
+    let sep = d.Options.o_linesep and psep = d.Options.o_parasep in
+    let same = ("C07", Layout.guard_C07 cls t d w,
+                ck (fun r -> Layout.check_C07_same cls t r.text (if d.Options.o_preserve then [psep; sep] else [sep])
+                             && (not d.Options.o_preserve || Layout.count_occ_sep t psep = Layout.count_occ_sep r.text psep))) in
+    let valid_align = (int_of_z a >= 1 && int_of_z a <= 3) in
+    if d.Options.o_preserve && valid_align then [same; ("C11", Paras.guard_C11_hom t d && Layout.guard_C07 cls t d w, ck (fun r -> Paras.check_C11_hom cls upp op t d r.text)); c18_valid; keeps]
+    else [("C13", Layout.guard_C13 cls t sep w, ck (fun r -> Layout.check_C13 cls a t sep d.Options.o_notrailing w r.text));
+          same; c18_valid; keeps]
+  | Hist.OIndent (lvl, o) ->
+    let d = dflt o in
+    let sep = d.Options.o_linesep in
+    if int_of_z lvl < 1 then [("C07", true, ck (fun r -> r.text = t)); c18_valid; keeps]
+    else if d.Options.o_preserve then
+      [("C11", Paras.guard_C11_hom t d, ck (fun r -> Paras.check_C11_hom cls upp op t d r.text)); c18_valid; keeps]
+    else
+      let ind = Stdlib.List.concat (Stdlib.List.init (int_of_z lvl) (fun _ -> d.Options.o_indent)) in
+      [("C07", Layout.guard_C07 cls t d Z0, ck (fun r -> r.text = Select.apply_expected (fun _ l -> [ind @ l]) t sep d.Options.o_notrailing));
+       c18_valid; keeps]
+  | Hist.OTwoCols (pos, l, r, gap, w, _, _, o) ->
+    let d = dflt o in
+    [("C14", Blocks.guard_C14 cls t l r d.Options.o_linesep gap w,
+      ck (fun x -> Blocks.check_C14 cls t pos l r gap w d.Options.o_linesep d.Options.o_notrailing x.text));
+     ("C18", Utf8.valid_utf8 t && Utf8.valid_utf8 l && Utf8.valid_utf8 r && int_of_z gap >= 0, ck (fun x -> Utf8.valid_utf8 x.text)); keeps]
+  | Hist.ODefTable (pos, defs, w, o) ->
+    let d = dflt o in
+    [("C15", Blocks.guard_C15 cls t defs d w, ck (fun x -> Blocks.check_C15 cls t pos defs w d x.text));
+     ("C18", Utf8.valid_utf8 t && Stdlib.List.for_all (fun (a, b) -> Utf8.valid_utf8 a && Utf8.valid_utf8 b) defs, ck (fun x -> Utf8.valid_utf8 x.text)); keeps]
+  | Hist.OTable (pos, data, w, o) ->
+    let d = dflt o in
+    [("C16", Blocks.guard_C16 cls upp t data d w, ck (fun x -> Blocks.check_C16 cls upp t pos data w d x.text));
+     ("C18", Utf8.valid_utf8 t && Stdlib.List.for_all (Stdlib.List.for_all Utf8.valid_utf8) data, ck (fun x -> Utf8.valid_utf8 x.text)); keeps]
+  | Hist.OApplyParas (k, o) ->
+    let d = dflt o in
+    [("C11", Paras.guard_C11 t d.Options.o_parasep d.Options.o_linesep,
+      ck (fun r -> Paras.check_C11_cb k t d.Options.o_parasep d.Options.o_linesep r.text)); c18_valid; keeps]
+  | Hist.OCommit | Hist.OCommitAll | Hist.OWithOptions _ -> []
+  | _ -> []
+
+(* known-finding clauses: a name for the class of inputs a failing case falls in *)
+let clause (recv : eobs) (op : Hist.op) (prop : string) : string =
+  let dflt o = Options.with_defaults cls (match o with Some o -> o | None -> recv.opts) in
+  match op, prop with
+  | Hist.OWrap (_, o), ("C07" | "C11" | "C06") ->
+    let d = dflt o in
+    if d.Options.o_preserve
+    && (Paras.sep_suffix d.Options.o_parasep d.Options.o_linesep <> [] || Paras.sep_prefix d.Options.o_parasep d.Options.o_linesep <> [])
+    then "wrap-para-visible-affix" else "-"
+  | _ -> "-"
+
+let emit (id : string) (_stream : string)
+    (trace : (Editor.editor * Hist.op * Editor.editor Res.coq_Res) list)
+    (pool0 : coq_Z list list) (recvs : int list)
+    (impl : iobs option list) (impl_raw : string list) : unit =
+  (* the implementation's view of the pool: initial entries, then each step's result (receiver on panic) *)
+  let zero = { text = []; opts = Options.zero_options; sub = false; a = Z0; b = Z0; str = Some []; chars = Z0; lines = Z0 } in
+  let ipool = ref (Array.of_list (Stdlib.List.map (fun t -> { zero with text = t; str = Some t }) pool0)) in
+  let parent = ref (Array.make (Stdlib.List.length pool0) (-1)) in
+  let rec go k trace recvs impl raw =
+    match trace, recvs, impl, raw with
+    | (me, op, mr) :: trace', recv :: recvs', io :: impl', tok :: raw' ->
+      if recv < Array.length !ipool then begin
+        let ir = (!ipool).(recv) in
+        let iout = (match io with Some i -> Some (of_iobs i) | None -> None) in
+        let mout = (match mr with Res.Ok e -> Some (of_model e) | _ -> None) in
+        (* C18: no panic, no timeout *)
+        Printf.printf "%s V C18 %d 1 %s %s\n" id k (b2s (iout <> None)) (b2s (mout <> None));
+        (* C08: determinism / receiver unchanged flags from the harness *)
+        let nd = String.length tok >= 2 && (String.sub tok 0 2 = "ND" || (String.length tok >= 3 && String.sub tok 0 3 = "MUT")) in
+        Printf.printf "%s V C08 %d 1 %s 1\n" id k (b2s (not nd));
+        Stdlib.List.iter (fun (prop, g, ci) ->
+            Printf.printf "%s V %s %d %s %s %s\n" id prop k (b2s g) (b2s ci) (if ci then "-" else clause ir op prop))
+          (step_checks ir op iout);
+        (* model's own outputs through the same checkers *)
+        Stdlib.List.iter (fun (prop, g, cm) -> Printf.printf "%s M %s %d %s %s\n" id prop k (b2s g) (b2s cm))
+          (step_checks (of_model me) op mout);
+        (* C05: commit splices exactly the selected region of the parent *)
+        let par = (!parent).(recv) in
+        (match op with
+         | Hist.OCommit ->
+           (match iout with
+            | Some o ->
+              if ir.sub && par >= 0 then begin
+                let p = (!ipool).(par) in
+                Printf.printf "%s V C05 %d 1 %s -\n" id k
+                  (b2s (Select.check_C05_commit p.text ir.text ir.a ir.b o.text && Options.options_eqb o.opts p.opts))
+              end else if not ir.sub then
+                Printf.printf "%s V C05 %d 1 %s -\n" id k (b2s (o.text = ir.text && not o.sub))
+            | None -> Printf.printf "%s V C05 %d 1 0 -\n" id k)
+         | _ -> ());
+        (* String() of every result equals committing through all ancestors *)
+        (match iout with
+         | Some o ->
+           let np = (match op with
+               | Hist.OChars _ | Hist.OCharsFrom _ | Hist.OCharsTo _ | Hist.OLines _ | Hist.OLinesFrom _ | Hist.OLinesTo _ -> recv
+               | Hist.OCommit -> if par >= 0 then (!parent).(par) else -1
+               | Hist.OCommitAll -> -1
+               | _ -> par) in
+           ipool := Array.append !ipool [| o |];
+           parent := Array.append !parent [| np |];
+           let rec full idx (x : eobs) =
+             if not x.sub then Some x.text else
+               let pi = (!parent).(idx) in
+               if pi < 0 then None else
+                 let p = (!ipool).(pi) in
+                 let spliced = Select.commit_expected p.text x.text x.a x.b in
+                 full pi { p with text = spliced } in
+           (match full (Array.length !ipool - 1) o with
+            | Some expect -> Printf.printf "%s V C05 %d 1 %s -\n" id k (b2s (o.str = Some expect))
+            | None -> ())
+         | None ->
+           ipool := Array.append !ipool [| ir |];
+           parent := Array.append !parent [| par |])
+      end;
+      go (k + 1) trace' recvs' impl' raw'
+    | _ -> () in
+  go 0 trace recvs impl impl_raw
